@@ -41,12 +41,12 @@ type ScanCtx struct {
 
 // ScanChunk is a policy's decision for one response.
 type ScanChunk struct {
-	Rows           int  // complete rows (or completing fragments) to send
-	SplitFirst     []int // if non-empty: send the first row as fragments of these sizes inside this response
-	TrailingCells  int  // additionally send this many cells of the next row as a partial fragment (0 = none)
-	Heartbeat      bool // send nothing, more_results_in_region = true
-	EndRegionLater bool // do not announce the end of the region in the response that carries its last row
-	MoreResultsFalse bool // if the scan is complete after this region's last row, say more_results=false
+	Rows             int   // complete rows (or completing fragments) to send
+	SplitFirst       []int // if non-empty: send the first row as fragments of these sizes inside this response
+	TrailingCells    int   // additionally send this many cells of the next row as a partial fragment (0 = none)
+	Heartbeat        bool  // send nothing, more_results_in_region = true
+	EndRegionLater   bool  // do not announce the end of the region in the response that carries its last row
+	MoreResultsFalse bool  // if the scan is complete after this region's last row, say more_results=false
 	// MarkLastPartial flags the last complete row of this response as partial
 	// although nothing of it is left (HBase does that when a size limit is hit
 	// exactly at the end of a row: "may have more cells in row").
